@@ -524,4 +524,4 @@ async def run_worker_case(loop: vclock.VLoop, case: dict, *, settled: Callable[[
 
 def run_case(case: dict, **kw: Any) -> Trace:
     max_steps = case.get("max_steps", 1_500_000)
-    return vclock.run(lambda loop: run_worker_case(loop, case, **kw), max_steps=max_steps)
+    return vclock.run(lambda loop: run_worker_case(loop, case, **kw), max_steps=max_steps, tz=case.get("tz"))
